@@ -164,6 +164,7 @@ def run(ctx):
         fs = sorted({a['n'].split('::')[-1] for a in g['acc'] if a['n'].startswith(FL + '::')})
         getter_field[FL + '::' + m] = fs
     frame_w = []
+    frame_rhs = {}
     loop = next((st for st in sb.get('c', ()) if st.get('k') in ('ForStmt', 'CXXForRangeStmt', 'WhileStmt')), None)
     if loop is None:
         raise AnalysisBroken('serialize: frame loop not found')
@@ -181,6 +182,7 @@ def run(ctx):
                     f = getter_field[y['fn']]
             if f:
                 frame_w.append((x['l'], f))
+                frame_rhs[len(frame_w) - 1] = rhs
     # reader: constructor call with substrings[k] args, later setfile(substrings[k])
     subs = None
     for x in walk(db):
@@ -245,6 +247,39 @@ def run(ctx):
         ok = any(f == [fld['n']] for _, f in frame_w)
         ctx.ob('R15.1', 'frame-member:%s' % fld['n'], ok, ('FileLocation::%s is part of the frame encoding' % fld['n']) if ok else
                ('FileLocation::%s is not written by serialize(): locations differ between -j1 and the process executor' % fld['n']), '%s:%s' % (frec['file'], fld['l']))
+
+    # ---- R15.7 the last frame part is free text: the reader must take the remainder, not split at every separator ----------
+    ctx.rule('R15.7', 'the reader of a call-stack frame takes the last part (free text that may contain the separator) as the remainder of the frame')
+    decl = next((x for x in walk(db) if x.get('k') == 'VarDecl' and x.get('di') == subs), None)
+    if decl is None:
+        raise AnalysisBroken('deserialize: container of the frame parts not found')
+    splitter = [y.get('fn') for y in walk(decl.get('init') or {}) if y.get('k') == 'CallExpr' and y.get('fn') and not y['fn'].startswith('std::')]
+    for x in walk(db):
+        if x.get('k') == 'CXXOperatorCallExpr' and x.get('op') == '=' and strip_all(x['c'][1]).get('di') == subs:
+            splitter += [y.get('fn') for y in walk(x['c'][2]) if y.get('k') == 'CallExpr' and y.get('fn') and not y['fn'].startswith('std::')]
+    remainder = []
+    for x in walk(db):
+        if x.get('k') == 'CXXMemberCallExpr' and (x.get('fn') or '').rsplit('::', 1)[-1] in ('push_back', 'emplace_back') and \
+                any(y.get('k') == 'DeclRefExpr' and y.get('di') == subs for y in walk(x['c'][0])):
+            for y in walk(x):
+                if y.get('k') == 'CXXMemberCallExpr' and (y.get('fn') or '').endswith('::substr') and \
+                        len([a for a in y['c'][1:] if strip_all(a).get('k') != 'DefaultArg']) == 1:
+                    remainder.append(y['l'])
+    ok = bool(remainder) and not splitter
+    lastf = frame_w[-1][1][0] if frame_w and len(frame_w[-1][1]) == 1 else '?'
+    ctx.ob('R15.7', 'frame-remainder', ok, ('the last frame part (FileLocation::%s) is taken as the remainder of the frame (substr with one argument, line %s)' % (lastf, remainder[0])) if ok else
+           ('ErrorMessage::deserialize splits a call-stack frame at every separator (%s): the last part, FileLocation::%s, is free text that may contain the separator, so the text after '
+            'its first separator is lost when a finding crosses the worker pipe' % (('through ' + ', '.join(splitter)) if splitter else 'no part is taken as remainder', lastf)),
+           '%s:%s' % (des['file'], decl['l']))
+
+    # ---- R15.8 separator-joined parts before the last one must not be able to contain the separator ------------------------
+    ctx.rule('R15.8', 'every part of a call-stack frame except the last is separator-free by construction (a number)')
+    for k, (line, f) in enumerate(frame_w[:-1]):
+        rhs = frame_rhs.get(k)
+        numeric = rhs is not None and any(y.get('k') == 'CallExpr' and (y.get('fn') or '') in ('std::to_string',) for y in walk(rhs))
+        ctx.ob('R15.8', 'frame-part-separator-free:%s' % '/'.join(f), numeric, ('frame part %d (%s) is written through std::to_string' % (k, '/'.join(f))) if numeric else
+               ('frame part %d (FileLocation::%s, line %s) is free text joined with a tab separator and is not the last part: a tab inside it shifts every later part when the frame is split, '
+                'so the process executor reports a different location than a single job' % (k, '/'.join(f), line)), '%s:%s' % (ser['file'], line))
 
     # ---- R15.2 ------------------------------------------------------------------------------------------------------
     en = next((e for name, e in F.enums.items() if name.endswith('PipeWriter::PipeSignal')), None)
